@@ -106,6 +106,18 @@ void vf_run_case(Ctx& c, uint64_t index) {
         if (out.err == AJ::DeserializationError::Ok && doc.nesting() > limit) c.violation("nesting-above-limit", "nesting() = " + std::to_string(doc.nesting()) + " > limit after Ok", wit);
         doc.clear();
         if (!sa.live.empty()) c.violation("blocks-live-after-clear", std::to_string(sa.live.size()) + " blocks after clear()", wit);
+        // the same input once more into the same (now cleared) document: same code, same document
+        {
+          auto e3 = deser_kind(kind, doc, bytes, o, nullptr);
+          if (e3 != out.err) c.violation("reuse-differs", std::string("second deserialization of the same input into the same document returned ") + err_name(e3) + ", the first " + err_name(out.err), wit);
+          else {
+            Inspector::Snap s3 = Inspector::inspect(doc, doc.overflowed());
+            if (!s3.ok) c.violation("structure", std::string("after reuse: ") + s3.error, wit);
+            else { ExtractState e3s; ExtractOpt eo3; eo3.max_nodes = 2000000; MVal again = extract(doc, &e3s, eo3); CmpOpt co; std::string why; if (!e3s.overflow && !mv_equal(out.doc, again, co, &why)) c.violation("reuse-differs", "second deserialization of the same input gives another document: " + why, wit); }
+          }
+          c.count("reuse_runs");
+          doc.clear();
+        }
         doc["k"] = 1;
         auto e2 = AJ::deserializeJson(doc, "[1]");
         if (e2 != AJ::DeserializationError::Ok || doc[0] != 1) c.violation("unusable-after-error", std::string("document cannot be reused after ") + err_name(out.err), wit);
